@@ -1,0 +1,45 @@
+//go:build verif
+
+package parser
+
+// Verification hooks (build tag "verif" only): read-only windows into unexported parser
+// functions used by the external verification harness. Nothing here is compiled into normal builds.
+
+import (
+	"github.com/ajitpratap0/GoSQLX/pkg/models"
+	"github.com/ajitpratap0/GoSQLX/pkg/sql/ast"
+	"github.com/ajitpratap0/GoSQLX/pkg/sql/token"
+)
+
+// VerifConvert exposes the model-token to parser-token conversion with its position mapping.
+func VerifConvert(tokens []models.TokenWithSpan) (*ConversionResult, error) {
+	return convertModelTokensWithPositions(tokens)
+}
+
+// VerifStmtAt runs parseStatement on a fresh parser positioned at index pos of toks and returns
+// the statement, the error and the position at which the parser stopped.
+func VerifStmtAt(opts []ParserOption, toks []token.Token, pos int) (ast.Statement, error, int) {
+	p := NewParser(opts...)
+	p.tokens = toks
+	p.currentPos = pos
+	if pos < len(toks) {
+		p.currentToken = toks[pos]
+	}
+	stmt, err := p.parseStatement()
+	return stmt, err, p.currentPos
+}
+
+// VerifExprAt runs parseExpression on a fresh parser positioned at index pos of toks.
+func VerifExprAt(toks []token.Token, pos int) (ast.Expression, error, int) {
+	p := NewParser()
+	p.tokens = toks
+	p.currentPos = pos
+	if pos < len(toks) {
+		p.currentToken = toks[pos]
+	}
+	e, err := p.parseExpression()
+	return e, err, p.currentPos
+}
+
+// VerifDepth returns the current value of the recursion depth counter.
+func (p *Parser) VerifDepth() int { return p.depth }
